@@ -59,7 +59,7 @@ def c02():
 @prop("C03")
 def c03():
     if _q():
-        plans = [dict(universe=u, variant="extras", depth=2) for u in U] + \
+        plans = [dict(universe=u, variant="extras", depth=2) for u in U] + [dict(universe="U4", variant="extras", depth=4)] + \
                 [dict(universe=u, variant="extras", depth=7, simulate=25, fan_keep=0.1) for u in U]
         hs, modes = (0,), ("compiled",)
     else:
@@ -71,7 +71,7 @@ def c03():
                   "supports of rdeps, rtasks, deptasks, tartasks must equal the spec's derived indices, _expr/_tasks/_find_dependant_targets must answer as "
                   "derived, verify() must pass, and a fresh manager registering only the surviving definitions must have identical supports. "
                   "non-trivial = transition whose triggered task set is non-empty",
-                  plans, tags=["C03"], modes=modes, hashseeds=hs, queries=True)
+                  plans, tags=["C03"], modes=modes, hashseeds=hs, queries=True, loops=("refresh", "cleanup", "verify", "clone"), nloops=1)
 
 
 @prop("C17")
@@ -139,20 +139,22 @@ def replay(path):
 @prop("C12")
 def c12():
     if _q():
-        plans = [dict(universe=u, variant="xfer", depth=2, emitidx=False) for u in U] + \
+        plans = [dict(universe=u, variant="xfer", depth=2) for u in U] + [dict(universe="U4", variant="xfer_extras", depth=4)] + \
                 [dict(universe=u, variant="xfer_extras", depth=7, simulate=25, emitidx=False, fan_keep=0.1) for u in U]
         modes, hs = ("compiled",), (0,)
     else:
-        plans = [dict(universe=u, variant="xfer", depth=3, emitidx=False) for u in U] + \
+        plans = [dict(universe=u, variant="xfer", depth=3) for u in U] + [dict(universe="U4", variant="xfer_extras", depth=5)] + \
                 [dict(universe=u, variant="xfer_extras", depth=10, simulate=600, emitidx=False) for u in U]
         modes, hs = ("compiled", "pure"), (0, 1)
     from . import expr_engine as ee
     v = me.run("C12", "model_checking",
                   "Manager.tla with the Transfer actions pickle_copy / pickle_orig (pickle.loads(pickle.dumps(manager)) as a stuttering step, the behaviour then "
                   "continues on the copy resp. on the original): the round trip must succeed, verify() must pass, the copy's projection must equal the spec state, "
-                  "every later step on either side must conform to the spec, and the other side must stay exactly as it was (independence). "
-                  "non-trivial = transition whose triggered task set is non-empty",
-                  plans, tags=["C12"], modes=modes, hashseeds=hs, queries=False, finish=False)
+                  "every later step on either side must conform to the spec (contents, definitions, and on the exhaustive plans the query answers: index supports, "
+                  "_expr / _tasks / _find_dependant_targets, verify()), and the other side must stay exactly as it was (independence). Universe U4 (small menu) is "
+                  "explored 4-5 calls deep, and every conforming edge is replayed again with a pickle round trip inserted right before it (the BFS tree reaches a state along "
+                  "one path only), so that removals after the round trip are reached. non-trivial = transition whose triggered task set is non-empty",
+                  plans, tags=["C12"], modes=modes, hashseeds=hs, queries=True, finish=False, loops=("pickle_copy", "pickle_orig"), nloops=2)
     v.cov["rule"] += " || second stage, Expr.tla: every expression TLC builds (every node class: binary, unary, literal, builtin with and without parameters, " \
                      "call with kwargs, nested item/attribute refs, computed keys) is pickled and restored on its own: same structure, same value"
     return ee.run("C12", "model_checking", "", _expr_plans(_q())[:2] if _q() else _expr_plans(False), tags=["C12"], modes=modes, hashseeds=(0,), verdict=v)
@@ -179,7 +181,7 @@ def c13():
 @prop("C11")
 def c11():
     if _q():
-        plans = [dict(universe=u, variant="xfer", depth=2, emitidx=False) for u in U] + \
+        plans = [dict(universe=u, variant="xfer", depth=2, emitidx=False) for u in U] + [dict(universe="U4", variant="xfer", depth=4, emitidx=False)] + \
                 [dict(universe=u, variant="xfer_extras", depth=7, simulate=25, emitidx=False, fan_keep=0.1) for u in U]
         modes, hs, keys = ("compiled",), (0,), ("plain", "hostile")
     else:
@@ -192,7 +194,7 @@ def c11():
                   "label rebound to a nested reference) and copy_keep (overwrite=False over a pre-existing definition): after the transfer the new manager's "
                   "projection must equal the spec state and every later step on it must conform (reacts identically). Keys: plain and hostile (quotes, brackets, "
                   "text containing the container label, unicode, ints, floats, tuples). non-trivial = non-empty triggered set",
-                  plans, tags=["C11"], keys=keys, modes=modes, hashseeds=hs, queries=False, finish=False)
+                  plans, tags=["C11"], keys=keys, modes=modes, hashseeds=hs, queries=False, finish=False, loops=("dumpload", "copy_plain", "copy_bind"), nloops=1)
     v.cov["rule"] += " || second stage, Expr.tla: for every expression TLC builds (all operators, literal catalogue incl. negatives and floats, abs/round(x,n)/divmod, " \
                      "math.floor/ceil/trunc, calls with positional and keyword arguments, computed keys; plain and hostile keys) eval(str(e)) in a namespace binding " \
                      "the container labels (and the module math) must rebuild the same AST, compare equal, hash equally and evaluate equally"
@@ -220,6 +222,9 @@ def c20():
                   plans, tags=["C20"], keys=keys, modes=("compiled", "pure"), hashseeds=hs, queries=False, cross_config=True,
                   extra_assume=("fault-injection plans are not part of the corpus: 'the k-th write' is not the same program under two legal task orders",),
                   finish=False)
+    # the same programs with keys as numpy hands them out (np.int64 list indices, np.str_ names): both builds must treat them alike
+    v = me.run("C20", "exploration", "", [dict(universe=u, variant="xfer", depth=2, emitidx=False) for u in (("U2",) if _q() else U)], tags=["C20"], keys=("numpy",),
+               modes=("compiled", "pure"), hashseeds=hs[:2], queries=False, cross_config=True, verdict=v, finish=False)
     v.cov["rule"] += " || second stage, Expr.tla: the expression-term corpus of C04-C06 (construction, evaluation, printed form, dependencies, in-place operators) " \
                      "replayed under the same configurations with per-step digests compared"
     return ee.run("C20", "exploration", "", _expr_plans(True)[:1] if _q() else _expr_plans(False)[:2], tags=["C20"], modes=("compiled", "pure"),
